@@ -79,7 +79,13 @@ type KnownFinding struct {
 	Commit   string `json:"commit,omitempty"`
 }
 
-const verifDir = "/verif"
+// verifDir is /verif unless $VERIF_DIR points at a snapshot (background runs)
+var verifDir = func() string {
+	if d := os.Getenv("VERIF_DIR"); d != "" {
+		return d
+	}
+	return "/verif"
+}()
 
 func main() {
 	tier := flag.String("tier", "", "quick | thorough (default $VERIF_TIER or quick)")
